@@ -356,7 +356,7 @@ msadpcm_read_s	(SF_PRIVATE *psf, short *ptr, sf_count_t len)
 	{	readcount = (len > 0x10000000) ? 0x10000000 : (int) len ;
 
 		if ((count = (int) msadpcm_read_block (psf, pms, ptr, readcount)) <= 0)
-			return -1 ;
+			break ;
 
 		total += count ;
 		len -= count ;
@@ -385,7 +385,7 @@ msadpcm_read_i	(SF_PRIVATE *psf, int *ptr, sf_count_t len)
 	{	readcount = (len >= bufferlen) ? bufferlen : (int) len ;
 
 		if ((count = (int) msadpcm_read_block (psf, pms, sptr, readcount)) <= 0)
-			return -1 ;
+			break ;
 
 		for (k = 0 ; k < readcount ; k++)
 			ptr [total + k] = arith_shift_left (sptr [k], 16) ;
@@ -417,7 +417,7 @@ msadpcm_read_f	(SF_PRIVATE *psf, float *ptr, sf_count_t len)
 	{	readcount = (len >= bufferlen) ? bufferlen : (int) len ;
 
 		if ((count = (int) msadpcm_read_block (psf, pms, sptr, readcount)) <= 0)
-			return -1 ;
+			break ;
 
 		for (k = 0 ; k < readcount ; k++)
 			ptr [total + k] = normfact * (float) (sptr [k]) ;
@@ -449,7 +449,7 @@ msadpcm_read_d	(SF_PRIVATE *psf, double *ptr, sf_count_t len)
 	{	readcount = (len >= bufferlen) ? bufferlen : (int) len ;
 
 		if ((count = (int) msadpcm_read_block (psf, pms, sptr, readcount)) <= 0)
-			return -1 ;
+			break ;
 
 		for (k = 0 ; k < readcount ; k++)
 			ptr [total + k] = normfact * (double) (sptr [k]) ;
